@@ -351,8 +351,10 @@ func (by byKeyHash) Less(i, j int) bool {
 	return false
 }
 
-func (h *hintMgr) dump(chunkID, splitID int) (err error) {
-	ck := h.chunks[chunkID]
+// dump writes one split of ck (locked by the caller) to its hint file. ck is passed in, not looked up
+// again: GC's ClearChunk may replace h.chunks[chunkID] at any time, and unlocking the replacement,
+// which nobody has locked, is fatal for the whole process.
+func (h *hintMgr) dump(ck *hintChunk, chunkID, splitID int) (err error) {
 	sp := ck.splits[splitID]
 
 	ck.Unlock()
@@ -368,6 +370,11 @@ func (h *hintMgr) dump(chunkID, splitID int) (err error) {
 		}
 	}
 	sp.buf = nil
+	if h.chunks[chunkID] != ck {
+		// the chunk was cleared meanwhile (its data file is being collected): the file just
+		// written describes records that are gone, and ClearChunk has already removed the others
+		utils.Remove(path)
+	}
 	return nil
 }
 
@@ -383,7 +390,7 @@ func (h *hintMgr) trydump(chunkID int, dumplast bool) (silence int64) {
 	for ; j < l-1; j++ {
 		if splits[j].needDump() {
 			logger.Infof("dump old (%d, %d, %d)", h.bucketID, chunkID, j)
-			h.dump(chunkID, j)
+			h.dump(ck, chunkID, j)
 		}
 	}
 
@@ -399,7 +406,7 @@ func (h *hintMgr) trydump(chunkID int, dumplast bool) (silence int64) {
 		if splits[j].needDump() {
 			ck.rotate()
 			ck.lastTS = 0
-			h.dump(chunkID, j)
+			h.dump(ck, chunkID, j)
 			silence = 0
 		}
 	} else {
